@@ -148,11 +148,23 @@ class FTPProcessorSession(BaseProcessorSession):
 
             self._file_writer_session.process_request(request)
 
+        if not self._is_request_accepted(request):
+            # The request may be for a directory URL derived from the item URL
+            # (glob pattern or a path found to be a directory).
+            _logger.debug('Request URL {} is filtered.', request.url)
+            self._item_session.skip()
+            return
+
         wait_time = yield from self._fetch(request, is_file)
 
         if wait_time:
             _logger.debug('Sleeping {0}.', wait_time)
             yield from asyncio.sleep(wait_time)
+
+    def _is_request_accepted(self, request: Request) -> bool:
+        '''Return whether the URL filters accept the URL of the request.'''
+        return self._fetch_rule.consult_filters(
+            request.url_info, self._item_session.url_record)[0]
 
     def _add_request_password(self, request: Request):
         if self._fetch_rule.ftp_login:
@@ -218,6 +230,11 @@ class FTPProcessorSession(BaseProcessorSession):
 
         directory_request = copy.deepcopy(request)
         directory_request.url = directory_url
+
+        if not self._is_request_accepted(directory_request):
+            _logger.debug('Parent directory URL {} is filtered. Assume is file.',
+                          directory_url)
+            return
 
         _logger.debug('Check if URL {} is file with {}.', request.url,
                       directory_url)
